@@ -27,6 +27,9 @@ type C02Case struct {
 	Script    []Call  `json:"script"`
 	Canonical bool    `json:"canonical"`
 	RejectCfg bool    `json:"reject_limit_configured,omitempty"`
+	// LimitReject: small body limits with the Reject action while the engine is On (or is switched by ctl): a body
+	// write reaching the limit is itself a disruptive event (413 / 500, rule id 0)
+	LimitReject bool `json:"limit_reject,omitempty"`
 }
 
 func canonicalScript(r *Req) []Call {
@@ -123,6 +126,10 @@ func genC02(t *rapid.T) *C02Case {
 	if c.Cfg.Engine == "DetectionOnly" && rapid.Bool().Draw(t, "rejectcfg") {
 		c.RejectCfg = true
 		c.RS.Pre = append(c.RS.Pre, "SecRequestBodyLimitAction Reject", "SecRequestBodyLimit 8")
+	}
+	if c.Cfg.Engine != "DetectionOnly" && rapid.IntRange(0, 3).Draw(t, "limitreject") == 0 {
+		c.LimitReject = true
+		c.RS.Pre = append(c.RS.Pre, "SecRequestBodyLimitAction Reject", "SecRequestBodyLimit 8", "SecResponseBodyLimitAction Reject", "SecResponseBodyLimit 8")
 	}
 	c.Req = Req{Method: "POST", Path: "/p"}
 	for k := 1; k <= nconds; k++ {
@@ -350,11 +357,41 @@ func checkC02(c *C02Case) Result {
 			return res
 		}
 	}
+	// engine mode in force before each call (rules fired during a call are fired[prev:cur] by the matched-rule count)
+	limitCut := -1 // number of rules fired before a body-limit interruption appeared (-1: none)
+	var limitIntr *Intr
+	{
+		modeNow := c.Cfg.Engine
+		prevN := 0
+		var prevIntr *Intr
+		for i, o := range obs {
+			op := c.Script[i].Op
+			isBody := op == "wreq" || op == "rreq" || op == "wresp" || op == "rresp"
+			if prevIntr == nil && o.Intr != nil && isBody && o.Intr.RuleID == 0 {
+				if modeNow != "On" {
+					res.Fail = failf("body call %d (%s) raised the interruption %v while the engine was %s (a limit with the Reject action must not disrupt unless the engine is On)%s", i, op, o.Intr, modeNow, ctx())
+					return res
+				}
+				limitCut, limitIntr = prevN, o.Intr
+			}
+			for _, fr := range fired[min(prevN, len(fired)):min(o.NMatched, len(fired))] {
+				if r := rules[fr.ID]; r != nil {
+					if sw := engineSwitch(r); sw != "" {
+						modeNow = sw
+					}
+				}
+			}
+			prevN, prevIntr = o.NMatched, o.Intr
+		}
+	}
 	// I3/I4: walk the fired rules in order, tracking the engine mode, and predict the interruption
 	mode := c.Cfg.Engine
 	var want *Intr
 	wantIdx := -1
 	for i, fr := range fired {
+		if limitCut >= 0 && i >= limitCut && want == nil {
+			break // the body-limit interruption came first
+		}
 		r := rules[fr.ID]
 		disr, status, redirect := m.effectiveDisr(r, r.Phase)
 		if mode == "On" && want == nil {
@@ -378,7 +415,20 @@ func checkC02(c *C02Case) Result {
 			mode = sw
 		}
 	}
-	if !intrEq(final, want) {
+	if want == nil && limitIntr != nil {
+		// interrupted by a body limit: final, and no rule of phases 1-4 fires afterwards
+		if !intrEq(final, limitIntr) {
+			res.Fail = failf("interruption is %v, but the transaction was first interrupted by the body limit: %v%s", final, limitIntr, ctx())
+			return res
+		}
+		for _, fr := range fired[min(limitCut, len(fired)):] {
+			if rules[fr.ID].Phase != 5 {
+				res.Fail = failf("rule %d of phase %d was evaluated after the transaction was interrupted by the body limit%s", fr.ID, rules[fr.ID].Phase, ctx())
+				return res
+			}
+		}
+		res.Labels = append(res.Labels, "interrupted-by-body-limit")
+	} else if !intrEq(final, want) {
 		res.Fail = failf("interruption is %v, the first fired disruptive rule (engine On at that time) predicts %v%s", final, want, ctx())
 		return res
 	}
@@ -430,7 +480,7 @@ func checkC02(c *C02Case) Result {
 		}
 	}
 	// canonical order without mode switches: complete prediction by the reference evaluator
-	if c.Canonical && !c.hasAnySwitch() && !c.RejectCfg {
+	if c.Canonical && !c.hasAnySwitch() && !c.RejectCfg && !c.LimitReject {
 		wantO, _ := refEval(&c.RS, &c.Req, c.Cfg)
 		if d := diffFired(fired, wantO.Fired, nil); d != "" {
 			res.Fail = failf("canonical order: %s; model fired %v%s", d, firedIDs(wantO.Fired), ctx())
@@ -464,6 +514,9 @@ func checkC02(c *C02Case) Result {
 	}
 	if c.RejectCfg {
 		res.Labels = append(res.Labels, "detectiononly+reject-configured")
+	}
+	if c.LimitReject {
+		res.Labels = append(res.Labels, "limit-reject-configured")
 	}
 	if !c.Canonical {
 		res.Labels = append(res.Labels, "anomalous-script")
